@@ -173,7 +173,10 @@ def obst_fresh(o):
     from commonroad.scenario.trajectory import Trajectory
     p = o.prediction
     fp = None
-    if p is not None:
+    from commonroad.prediction.prediction import SetBasedPrediction, Occupancy
+    if isinstance(p, SetBasedPrediction):
+        fp = SetBasedPrediction(p.initial_time_step, [Occupancy(copy_value(oc.time_step), fresh_shape(oc.shape)) for oc in p.occupancy_set])
+    elif p is not None:
         fp = TrajectoryPrediction(Trajectory(p.trajectory.initial_time_step, [fresh_state(s) for s in p.trajectory.state_list]), fresh_shape(p.shape))
     return DynamicObstacle(o.obstacle_id, o.obstacle_type, fresh_shape(o.obstacle_shape), fresh_state(o.initial_state), fp)
 
@@ -241,7 +244,20 @@ def net_start():
     net = LaneletNetwork()
     for i in NET_START:
         net.add_lanelet(spec.mk_lanelet(netgeo.lanelet_spec(i)))
+    # two further networks made from this network's lanelet list (both values of cleanup_ids) and queried once: they are networks of their own,
+    # nothing that happens to `net` afterwards may show in their answers
+    net._verif_twins = [LaneletNetwork.create_from_lanelet_list(net.lanelets, cleanup_ids=False), LaneletNetwork.create_from_lanelet_list(list(net.lanelets), cleanup_ids=True)]
+    for tw in net._verif_twins:
+        net_queries(tw)
     return net, {"deferred": False}
+
+
+def net_start_plain():
+    from commonroad.scenario.lanelet import LaneletNetwork
+    net = LaneletNetwork()
+    for i in NET_START:
+        net.add_lanelet(spec.mk_lanelet(netgeo.lanelet_spec(i)))
+    return net
 
 
 def net_enabled(model):
@@ -333,6 +349,18 @@ def net_check(net, model, model2, op, obs, pre, subject="network"):
     except Exception as e:
         out.append((f"C11|{subject}|{op[0]}->query|raises:{type(e).__name__}", repr(e)))
         return out
+    if subject == "network" and getattr(net, "_verif_twins", None):
+        pristine = net_queries(net_start_plain())
+        for ti, tw in enumerate(net._verif_twins):
+            try:
+                got = net_queries(tw)
+            except Exception as e:
+                out.append((f"C11|{subject}|{op[0]}->network-made-from-the-same-lanelet-list|raises:{type(e).__name__}", repr(e)))
+                continue
+            for path, kind, detail in snap.diff(pristine, got, tol_point=TOL, tol_real=1e-9, angle_mod=False):
+                q = path.split(".", 1)[1].split("[")[0] if "." in path else path
+                out.append((f"C11|{subject}|{op[0]}->{q}|changed-in-a-network-made-from-the-same-lanelet-list(cleanup_ids={bool(ti)})", f"after {op} on the first network: {path}: {detail}"))
+                break
     for path, kind, detail in snap.diff(fresh, live, tol_point=TOL, tol_real=1e-9, angle_mod=False):
         q = path.split(".", 1)[1].split("[")[0] if "." in path else path
         if just_moved and q.startswith("find_lanelet_by"):
@@ -446,6 +474,10 @@ def light_check(t, model, model2, op, obs, pre):
 
 # =========================================================================== subject 4: whole scenario
 
+OCC_PROBES = [(3.0, 1.0), (4.0, 1.0), (5.0, 1.5), (6.0, 0.5), (1.0, 1.0), (103.0, 1.0), (104.0, 1.0), (106.0, 0.5), (-1.0, 3.0), (-1.5, 5.0), (-0.5, 6.0), (3.0, 51.0), (6.0, 50.5),
+              (2.0, 1.0), (102.0, 1.0), (-1.0, 2.0), (6.0, 3.0), (106.0, 3.0), (-3.0, 6.0)]
+
+
 def scen_start():
     sp = spec.minimal()
     sp["lanelets"] = [netgeo.lanelet_spec(i) for i in NET_START]
@@ -462,6 +494,13 @@ def scen_start():
     shared = sc.obstacle_by_id(70).prediction.trajectory.state_list
     sc.add_objects(DynamicObstacle(72, ObstacleType.CAR, spec.mk_shape(["rect", 3.0, 1.5, 0.0, 0.0, 0.0]), spec.mk_state(spec.init_state(x=0.0, y=3.0, o=0.0, t=0)),
                                    TrajectoryPrediction(Trajectory(1, shared), spec.mk_shape(["rect", 3.0, 1.5, 0.0, 0.0, 0.0]))))
+    # ... and one with a set-based prediction (rectangle, group and polygon occupancies): these shapes are moved as they are, not re-placed at a state
+    from commonroad.prediction.prediction import SetBasedPrediction, Occupancy
+    occs = [Occupancy(1, spec.mk_shape(["rect", 2.0, 1.0, 3.0, 1.0, 0.2])), Occupancy(2, spec.mk_shape(["group", [["rect", 1.0, 1.0, 4.0, 1.0, 0.0], ["circle", 0.5, 5.0, 1.5]]])),
+            Occupancy(3, spec.mk_shape(["poly", [[5.0, 0.0], [7.0, 0.0], [7.0, 1.0], [5.0, 1.5]]]))]
+    sc.add_objects(DynamicObstacle(73, ObstacleType.BICYCLE, spec.mk_shape(["rect", 2.0, 1.0, 0.0, 0.0, 0.0]), spec.mk_state(spec.init_state(x=2.0, y=1.0, o=0.2, t=0)),
+                                   SetBasedPrediction(1, occs)))
+    scen_queries(sc)        # every derived datum exists before the first operation
     return sc, {"deferred": False}
 
 
@@ -498,13 +537,21 @@ def scen_step(sc, model, op):
 def scen_queries(sc, fresh_obstacles=None):
     out = net_queries(sc.lanelet_network)
     obstacles = fresh_obstacles if fresh_obstacles is not None else sc.obstacles
-    snap.RECT_VERTICES = False
+    snap.RECT_VERTICES = True          # the corner points a rectangle reports are derived data, too
     if fresh_obstacles is None:
         for t in range(0, 5):
             out[f"occupancies_at_time_step({t})"] = sorted(repr(snap.shape(o.shape)) for o in sc.occupancies_at_time_step(t))
     else:
         for t in range(0, 5):
             out[f"occupancies_at_time_step({t})"] = sorted(repr(snap.shape(o.occupancy_at_time(t).shape)) for o in obstacles if o.occupancy_at_time(t) is not None)
+    # membership of fixed probe points in every occupancy (answers come from the shapes' internal geometry)
+    import numpy as np
+    for o in sorted(obstacles, key=lambda o_: o_.obstacle_id):
+        for t in range(0, 4):
+            oc = o.occupancy_at_time(t)
+            if oc is not None:
+                out[f"occupancy({o.obstacle_id},{t}).contains_point"] = [bool(oc.shape.contains_point(np.array(p))) for p in OCC_PROBES]
+    snap.RECT_VERTICES = False
     return out
 
 
